@@ -120,19 +120,20 @@ package dns
 //@   modifies MS.mapLstringJint MS.mapLstringJuint16
 //@ func (RR_Header).packHeader [C01 C08 C16]
 //@   requires 0 <= off
-//@   ensures mono: ret1 == nil ==> off <= ret0 && (off != len(msg) ==> off + 10 <= ret0 && ret0 <= len(msg))
-//@   ensures root: ret1 == nil && off != len(msg) && isdot(hdr.Name) ==> ret0 == off + 11
+// a record header takes the owner name and ten more octets (TYPE, CLASS, TTL, RDLENGTH) - or it is an error
+//@   ensures mono: ret1 == nil ==> off + 10 <= ret0 && ret0 <= len(msg)
+//@   ensures root: ret1 == nil && isdot(hdr.Name) ==> ret0 == off + 11
 //@   ensures rng: ret1 == nil && off <= len(msg) ==> ret0 <= len(msg)
 //@   writes msg
 //@   modifies MS.mapLstringJint MS.mapLstringJuint16
-//@ func packRR [C01 C08 C16]
+//@ func packRR [C01 C02 C08 C16]
 //@   requires 0 <= off
-//@   ensures mono: err == nil ==> off <= headerEnd && headerEnd <= off1 && off1 <= len(msg)
-//@   ensures root: err == nil && off != len(msg) && isdot(hdr(rr).Name) ==> headerEnd == off + 11
-//@ func PackRR [C01 C08 C16]
+//@   ensures mono: err == nil ==> off + 10 <= headerEnd && headerEnd <= off1 && off1 <= len(msg) && rr != nil
+//@   ensures root: err == nil && isdot(hdr(rr).Name) ==> headerEnd == off + 11
+//@ func PackRR [C01 C02 C08 C16]
 //@   requires 0 <= off
-//@   ensures mono: err == nil ==> off <= off1 && off1 <= len(msg)
-//@   ensures root: err == nil && off != len(msg) && isdot(hdr(rr).Name) ==> off + 11 <= off1
+//@   ensures mono: err == nil ==> off + 10 <= off1 && off1 <= len(msg)
+//@   ensures root: err == nil && isdot(hdr(rr).Name) ==> off + 11 <= off1
 
 // a packed message always contains its 12-octet header
 //@ func (*Msg).packBufferWithCompressionMap [C01 C08 C18 C11]
